@@ -3,7 +3,8 @@
    All distances are squared Euclidean distances over Z (see Model.v). *)
 From Coq Require Import ZArith List Bool Lia Permutation.
 Import ListNotations.
-From FV.C16 Require Import Model ProofsSort ProofsKnn ProofsHd ProofsHop.
+From FV.C16 Require Import Model ProofsSort ProofsKnn ProofsHd ProofsHop ProofsBuild.
+From FV.C16.gen Require Import Bounds.
 Open Scope Z_scope.
 
 (* possible_dist_min: the clamped distance is a lower bound for every point of the box *)
@@ -188,9 +189,75 @@ Proof.
   split. { exact pop_min_ok. } reflexivity.
 Qed.
 
+(* the octree construction carried out exactly (build_octree_node without
+   rounding: coordinates pre-scaled so that 0.51 * extent and all halvings are
+   integers) satisfies the hypotheses for EVERY point set: no point is lost and
+   every point lies in the boxes above it.  In the implementation they can fail
+   only through rounding of the cell bounds (open finding, notes/C16.md). *)
+Theorem C16_exact_octree_valid :
+  forall depth bpts pts, bpts <> [] -> incl pts bpts ->
+    validb (octree depth bpts pts) = true /\
+    tree_of (octree depth bpts pts) (map (scale_pt (octree_scale depth)) pts).
+Proof. intros. apply octree_valid_complete; auto. Qed.
+
+(* ... hence, end to end, search on the exact octree = brute force for every input *)
+Theorem C16_knn_on_exact_octree :
+  forall depth pts k bound q, pts <> [] ->
+    let t := octree depth pts pts in
+    knn (S (size t)) k bound q t =
+      Some (knn_spec k bound q (map (scale_pt (octree_scale depth)) pts)).
+Proof.
+  intros depth pts k bound q Hne t.
+  destruct (octree_valid_complete depth pts pts Hne (incl_refl _)) as [Hv Ht].
+  apply knn_eq_spec; auto. apply pop_min_ok.
+Qed.
+
+Theorem C16_hausdorff_on_exact_octree :
+  forall depth A B directed, A <> [] -> B <> [] ->
+    let sc := map (scale_pt (octree_scale depth)) in
+    let tA := octree depth (A ++ B) A in
+    let tB := octree depth (A ++ B) B in
+    hausdorff pop_min (S (size tA + size tB)) directed tA tB =
+      Some (if directed then hausdorff_directed_spec (sc A) (sc B) else hausdorff_spec (sc A) (sc B)).
+Proof.
+  intros depth A B directed HA HB sc tA tB.
+  assert (A ++ B <> []) as HAB by (destruct A; [congruence|discriminate]).
+  destruct (octree_valid_complete depth (A ++ B) A HAB (incl_appl _ (incl_refl _))) as [HvA HtA].
+  destruct (octree_valid_complete depth (A ++ B) B HAB (incl_appr _ (incl_refl _))) as [HvB HtB].
+  apply hausdorff_correct; auto; try lia.
+  - apply pop_min_ok.
+  - unfold sc. destruct A; [congruence|discriminate].
+  - unfold sc. destruct B; [congruence|discriminate].
+Qed.
+
+(* Tie T: gen/Bounds.v is re-translated from the source text of
+   possible_dist_min / possible_dist_max_node / possible_dist_range on every run;
+   the generated functions are the model's bounds, hence sound. *)
+Ltac same_fn := first [ reflexivity
+  | (cbv [gen_possible_dist_min gen_possible_dist_max_node gen_possible_dist_range lb2 hi2 ub2 clamp sq];
+     rewrite ?Z.abs_square; f_equal; ring) ].
+Theorem C16_gen_lb_is_model : forall b q, gen_possible_dist_min b q = lb2 q b.
+Proof. intros [[[? ?] ?] ?] [[? ?] ?]. same_fn. Qed.
+Theorem C16_gen_ub_is_model : forall a b, gen_possible_dist_max_node a b = ub2 a b.
+Proof. intros [[[? ?] ?] ?] [[[? ?] ?] ?]. same_fn. Qed.
+Theorem C16_gen_range_is_model : forall b q, gen_possible_dist_range b q = (lb2 q b, hi2 q b).
+Proof. intros [[[? ?] ?] ?] [[? ?] ?]. same_fn. Qed.
+Theorem C16_gen_bounds_sound :
+  forall a b q p p', inbox b p = true -> inbox a p' = true ->
+    gen_possible_dist_min b q <= d2 q p /\
+    fst (gen_possible_dist_range b q) <= d2 q p <= snd (gen_possible_dist_range b q) /\
+    d2 p' p <= gen_possible_dist_max_node a b.
+Proof.
+  intros a b q p p' Hb Ha. rewrite C16_gen_lb_is_model, C16_gen_range_is_model, C16_gen_ub_is_model.
+  simpl. pose proof (box_lb_sound q b p Hb). pose proof (box_hi_sound q b p Hb).
+  pose proof (box_ub_sound a b p' p Ha Hb). lia.
+Qed.
+
 Print Assumptions C16_knn_search_correct.
 Print Assumptions C16_knn_code_queue.
 Print Assumptions C16_hausdorff_correct.
 Print Assumptions C16_hop_graph_nodal_correct.
 Print Assumptions C16_hop_graph_elemental_correct.
 Print Assumptions C16_elemental_docstring_differs.
+Print Assumptions C16_knn_on_exact_octree.
+Print Assumptions C16_gen_bounds_sound.
